@@ -673,6 +673,10 @@ def apply_as_grid_ufunc(
     if axis is None:
         raise ValueError("Must provide an axis along which to apply the grid ufunc")
 
+    # an entry naming a single axis may be given as a plain string: it names that axis, whatever
+    # the length of the name (a string is not a sequence of one-letter axis names)
+    axis = [(ax,) if isinstance(ax, str) else ax for ax in axis]
+
     if len(args) != len(axis):
         raise ValueError(
             "Number of entries in `axis` does not match the number of data arguments supplied"
